@@ -155,6 +155,7 @@ static std::string runOne(const Config &cfg, const std::vector<ThreadProg> &prog
   vf::Options o = opt;
   o.maxSteps = 60000;
   o.pointAfterUnlock = true;
+  o.earliestDeadlineFirst = true;
   vf::reset(o);
   const ThreadProg *mainProg = nullptr;
   for (auto &tp : prog)
